@@ -12,8 +12,15 @@ namespace Facto
 /-- same kinds and same producer lists ⇒ same run, for all inputs and all ticks -/
 theorem run_congr_of_same_circuit (c₁ c₂ : Circuit) (hk : c₁.kinds = c₂.kinds) (hr : c₁.prodR = c₂.prodR)
     (hg : c₁.prodG = c₂.prodG) (inp : Inputs) (t i : Nat) : c₁.runF inp t i = c₂.runF inp t i := by
-  have : c₁ = c₂ := by cases c₁; cases c₂; simp_all
-  rw [this]
+  have hkind : ∀ j, c₁.kind j = c₂.kind j := by intro j; simp [Circuit.kind, hk]
+  have hall : ∀ t, c₁.runF inp t = c₂.runF inp t := by
+    intro t
+    induction t with
+    | zero => funext j; simp [Circuit.runF, hkind]
+    | succ t ih =>
+      funext j
+      simp only [Circuit.runF, Circuit.evalEnt, Circuit.readR, Circuit.readG, hkind, hr, hg, ih]
+  rw [hall t]
 
 /-- moving entities (and renumbering is a relabelling of `number`) does not change the decoded circuit:
 `toCircuit` and `canonical` never read `x2`, `y2` -/
